@@ -163,7 +163,8 @@ fn terminal(input: ParseString) -> ParseResult<GrammarExpression> {
 // terminal := quote, +any_token, quote ;
 fn terminal_token(input: ParseString) -> ParseResult<Token> {
   let (input, _) = quote(input)?;
-  let (input, mut t) = many0(tuple((is_not(quote),any_token)))(input)?;
+  // The grammar asks for at least one token between the quotes; an empty terminal has no token to merge.
+  let (input, mut t) = many1(tuple((is_not(quote),any_token)))(input)?;
   let (input, _) = quote(input)?;
   let mut t = t.into_iter().map(|(_,b)| b).collect::<Vec<Token>>();
   let token =  Token::merge_tokens(&mut t).unwrap();
